@@ -438,6 +438,12 @@ func (c *ClusterInfo) syncSecureServingConfigLocked(newSecureServing proxyv1alph
 			}
 			klog.Infof("[cluster info] cluster=%q update key and cert", c.Cluster)
 			newCfg.certs = []tls.Certificate{cert}
+		} else {
+			// only one of key and cert is left: there is no usable pair any more.
+			// Keeping the previous pair would make the serving certificate depend
+			// on the update history (a freshly started gateway serves none).
+			klog.Infof("[cluster info] cluster=%q cleanup key and cert, only one of them is set", c.Cluster)
+			newCfg.certs = nil
 		}
 	}
 
